@@ -111,7 +111,7 @@ class Profile:
     def __init__(self, doc=None, p_doc_mostly=False, max_items=8, depth=3, kinds=None, body_max=4,
                  dangling=True, classes=True, tests=True, groups=True, moddoc=True, parseargs=True,
                  moddoc_indent=None, set_values=None, option_help=None, weights=None, generic_cmds=None,
-                 arg_pool=None, group_depth=2, max_args=4):
+                 arg_pool=None, group_depth=2, max_args=4, min_items=0):
         self.doc = doc if doc is not None else benign_doc()
         self.p_doc_mostly = p_doc_mostly
         self.max_items = max_items
@@ -132,6 +132,7 @@ class Profile:
         self.arg_pool = arg_pool
         self.group_depth = group_depth
         self.max_args = max_args
+        self.min_items = min_items
 
     def mdoc(self):
         return maybe(self.doc, 0.2 if self.p_doc_mostly else 0.5)
@@ -250,10 +251,10 @@ def _testlike(p, depth, kind):
                                   "doc": p.mdoc(), "impl": _impl(p, depth, kind)})
 
 
-def items(p, depth, ctx, max_size):
+def items(p, depth, ctx, max_size, min_size=0):
     if depth < 0:
         return st.just([])
-    return st.lists(st.deferred(lambda: item(p, depth, ctx)), min_size=0, max_size=max_size)
+    return st.lists(st.deferred(lambda: item(p, depth, ctx)), min_size=min_size, max_size=max_size)
 
 
 def module(p):
@@ -265,7 +266,7 @@ def module(p):
             "mpos": st.integers(0, 8),
             "indent": st.none() if p.moddoc_indent is None else p.moddoc_indent})))
     return st.fixed_dictionaries({"moddoc": moddoc,
-                                  "items": items(p, p.depth, "top", p.max_items)}).map(finalize)
+                                  "items": items(p, p.depth, "top", p.max_items, p.min_items)}).map(finalize)
 
 
 # ------------------------------------------------------------------ finalisation: unique numbering, dangling placement
